@@ -90,6 +90,113 @@ func deepCopyFr(fr *frame, t types.Type, v value) value {
 	return v
 }
 
+// protoSize is a structural size of a message (number of populated leaves, capped): the encoded
+// length of the model grows and shrinks with the content, as a real encoding does, so that code
+// which overwrites an old encoding in place without truncating is not masked by a fixed length.
+func protoSize(t types.Type, v value) int {
+	n := 0
+	switch ut := t.Underlying().(type) {
+	case *types.Basic:
+		switch x := v.(type) {
+		case string:
+			if x != "" {
+				n = 1
+			}
+		case bool:
+			if x {
+				n = 1
+			}
+		case symstr, *Sym:
+			n = 1
+		default:
+			if !isZeroScalar(v) {
+				n = 1
+			}
+		}
+	case *types.Pointer:
+		if p, _ := v.(*value); p != nil {
+			n = protoSize(ut.Elem(), *p)
+		}
+	case *types.Struct:
+		s := v.(structure)
+		for i := range s {
+			f := ut.Field(i)
+			switch f.Name() {
+			case "state", "sizeCache", "unknownFields":
+			default:
+				n += protoSize(f.Type(), s[i])
+			}
+		}
+	case *types.Slice:
+		s, _ := v.([]value)
+		if b, ok := ut.Elem().Underlying().(*types.Basic); ok && b.Kind() == types.Uint8 {
+			if len(s) > 0 {
+				n = 1
+			}
+			break
+		}
+		n = len(s)
+		for i := range s {
+			n += protoSize(ut.Elem(), s[i])
+		}
+	case *types.Array:
+		a := v.(array)
+		for i := range a {
+			n += protoSize(ut.Elem(), a[i])
+		}
+	case *types.Map:
+		if m, _ := v.(*omap); m != nil {
+			for i := range m.keys {
+				if m.live[i] {
+					n += 1 + protoSize(ut.Elem(), m.vals[i])
+				}
+			}
+		}
+	case *types.Interface:
+		if x := v.(iface); x.t != nil {
+			n = 1 + protoSize(x.t, x.v)
+		}
+	}
+	if n > 24 {
+		n = 24
+	}
+	return n
+}
+
+func isZeroScalar(v value) bool {
+	switch x := v.(type) {
+	case int:
+		return x == 0
+	case int8:
+		return x == 0
+	case int16:
+		return x == 0
+	case int32:
+		return x == 0
+	case int64:
+		return x == 0
+	case uint:
+		return x == 0
+	case uint8:
+		return x == 0
+	case uint16:
+		return x == 0
+	case uint32:
+		return x == 0
+	case uint64:
+		return x == 0
+	case uintptr:
+		return x == 0
+	case float32:
+		return x == 0
+	case float64:
+		return x == 0
+	}
+	return false
+}
+
+const protoPad = uint8(0xaa)
+
 func init() {
 	marshal := func(fr *frame, args []value) value {
 		m := args[len(args)-1].(iface)
@@ -103,6 +210,9 @@ func init() {
 		r.protoTab = append(r.protoTab, iface{t: m.t, v: deepCopyFr(fr, m.t, m.v)})
 		idx := len(r.protoTab) - 1
 		h := []value{uint8(0xfe), uint8(idx >> 16), uint8(idx >> 8), uint8(idx)}
+		for i, n := 0, protoSize(m.t, m.v); i < n; i++ {
+			h = append(h, protoPad)
+		}
 		return tuple{h, iface{}}
 	}
 	unmarshal := func(fr *frame, args []value) value {
@@ -114,7 +224,7 @@ func init() {
 			*dst = zero(elem)
 			return iface{}
 		}
-		if len(buf) != 4 || buf[0] != value(uint8(0xfe)) {
+		if len(buf) < 4 || buf[0] != value(uint8(0xfe)) {
 			return fr.i.errorValue("proto: cannot parse invalid wire-format data")
 		}
 		idx := int(buf[1].(uint8))<<16 | int(buf[2].(uint8))<<8 | int(buf[3].(uint8))
@@ -125,6 +235,15 @@ func init() {
 		src := r.protoTab[idx].(iface)
 		if !types.Identical(src.t, m.t) {
 			return fr.i.errorValue("proto: message type mismatch")
+		}
+		// exactly the bytes Marshal produced: no missing and no left-over tail
+		if len(buf) != 4+protoSize(src.t, src.v) {
+			return fr.i.errorValue("proto: cannot parse invalid wire-format data")
+		}
+		for _, b := range buf[4:] {
+			if b != value(protoPad) {
+				return fr.i.errorValue("proto: cannot parse invalid wire-format data")
+			}
 		}
 		cp := deepCopy(src.t, src.v).(*value)
 		*dst = *cp
